@@ -1783,6 +1783,22 @@ func (n *node) unregisterSpawnName(p *process, reason error) {
 
 func (n *node) unregisterProcess(p *process, reason error) {
 	n.processes.Delete(p.pid)
+
+	// release the name, aliases and events before anybody is told that this process
+	// is gone: a supervisor restarts its child (same name, same events) as soon as
+	// it gets the exit signal
+	registered := p.registered.Load()
+	if registered {
+		n.names.Delete(p.name)
+	}
+	for _, a := range p.aliases {
+		n.aliases.Delete(a)
+	}
+	p.events.Range(func(k, _ any) bool {
+		n.events.Delete(gen.Event{Name: k.(gen.Atom), Node: p.node.name})
+		return true
+	})
+
 	n.RouteTerminatePID(p.pid, reason)
 	// drop links and monitors created by this process
 	n.targetManager.CleanupConsumer(p.pid)
@@ -1793,20 +1809,17 @@ func (n *node) unregisterProcess(p *process, reason error) {
 	}
 	n.log.Trace("...unregisterProcess %s", p.pid)
 
-	if p.registered.Load() {
-		n.names.Delete(p.name)
+	if registered {
 		pname := gen.ProcessID{Name: p.name, Node: n.name}
 		n.RouteTerminateProcessID(pname, reason)
 	}
 
 	for _, a := range p.aliases {
-		n.aliases.Delete(a)
 		n.RouteTerminateAlias(a, reason)
 	}
 
 	p.events.Range(func(k, _ any) bool {
 		ev := gen.Event{Name: k.(gen.Atom), Node: p.node.name}
-		n.events.Delete(ev)
 		n.RouteTerminateEvent(ev, reason)
 		return true
 	})
